@@ -244,3 +244,20 @@ package bigslice
 //@   loop 6 invariant suffix-equal: implies(!differ, len(lhs) - i == len(rhs) - j && forall(k, i, len(lhs), lhs[k] == rhs[k - i + j]))
 //@   loop 6 invariant equal-lists-never-differ: implies(sameLocs(lhs, rhs), i == j && !differ)
 //@   loop 7 invariant -1 <= i && i < len(d) && 2*(i+1) <= len(d) && fresh(d) && len(d) > 0
+
+// ---- C06: errors returned by user reader/writer functions are fatal unless marked temporary ----
+
+// What Read returns after calling the user's reader function, by the function's error result e: nothing ⇒ nil;
+// end-of-stream ⇒ end-of-stream; an error the user marked temporary (by whatever means IsTemporary recognises) ⇒ that
+// very error, so that the task is retried; any other error ⇒ a Fatal error carrying e. The outcome is sticky.
+//@ spec func userErrOutcome(e error, err error) bool = ite(e == nil, err == nil, ite(e == sliceio.EOF, err == sliceio.EOF, ite(isTemporary(e), err == e, isFatal(err) && errCause(err) == e)))
+
+//@ func bigslice.(*readerFuncSliceReader).Read (ctx, out) (n, err)
+//@   requires r != nil && r.op != nil && r.op.stateType != nil
+//@   may_panic
+//@   flag abstract_calls frame.Frame.Zero
+//@   ensures  sticky: implies(old(r.err) != nil, n == 0 && err == old(r.err) && userCalls == old(userCalls))
+//@   ensures  at-most-one-call: userCalls <= old(userCalls) + 1
+//@   ensures  classified: implies(userCalls == old(userCalls) + 1, len(lastCallRvs) >= 2 && userErrOutcome(rvIface(lastCallRvs[1]), err) && n == rvIntOf(lastCallRvs[0]))
+//@   ensures  remembered: implies(userCalls == old(userCalls) + 1, r.err == err)
+//@   modifies r.err, r.state, r.consecutiveEmptyCalls, ColMem, userCalls, lastCallRvs
